@@ -9,10 +9,14 @@ from .sqlmodel import local_defs, peewee_chains, single_def, sql_sites
 
 
 def _resolve(e, fi, depth=0):
-    """follow single-assignment locals (including tuple assignments)"""
+    """follow single-assignment locals (including tuple assignments); round(x) of a microsecond count is x (the counts are
+    integral up to float error, rounding to the nearest integer is the exact value)"""
     from .trace import resolve
 
-    return resolve(e, fi, depth)
+    r = resolve(e, fi, depth)
+    while isinstance(r, ast.Call) and isinstance(r.func, ast.Name) and r.func.id == "round" and len(r.args) == 1 and not r.keywords:
+        r = resolve(r.args[0], fi, depth)
+    return r
 
 
 def _ev_text(e, ev):
